@@ -383,7 +383,17 @@ func (s *sim) step() {
 			s.alloc(s.drawSize())
 			return
 		}
-		// bias to recently allocated blocks half of the time (LIFO reuse), else anywhere
+		// anywhere, or (a quarter of the time) the most recently allocated block: LIFO reuse
+		if k.Bool(1, 4, "free-newest") {
+			newest := s.m.live[0]
+			for _, b := range s.m.live {
+				if b.id > newest.id {
+					newest = b
+				}
+			}
+			s.free(newest.ptr)
+			return
+		}
 		s.free(s.pickLive("free-which").ptr)
 	case r < 14:
 		s.write()
